@@ -23,7 +23,7 @@ import ast
 import re
 
 from ..core import (AnalysisError, Report, call_name, dotted, enclosing_function, find_class,
-                    find_func, need, norm, short, ancestors, parent)
+                    find_func, need, norm, short, ancestors, parent, subst_locals)
 from ..escape import Escapes, Signal
 from ..flow import Flow, MustFacts
 from ..index import CallGraph, FuncInfo, Index, read_routes, verb_methods
@@ -320,16 +320,40 @@ def r16_3(rep: Report, idx: Index, cg: CallGraph) -> None:
 
 # ---------------------------------------------------------------------------
 SAFE_STEPS: list[tuple[str, str, str]] = [
-    # (function suffix, step text, invariant)
-    ('Representation.generateSegmentTimeline', 'dur += duration',
+    # (function suffix, pattern of the step once local copies are resolved, invariant) - the counter may
+    # have any name; what is confirmed by reading is what it advances by
+    ('Representation.generateSegmentTimeline', r'self\.segments\[\w+\]\.duration',
      'one full pass over the stored segments adds mediaDuration + drift = the timing-reference '
      'duration, which is > 0 (asserted in get_segment_index, enforced when a reference is chosen)'),
-    ('Representation.get_segment_index', 'seg_start_tc += self.segments[mod_segment].duration',
+    ('Representation.get_segment_index', r'self\.segments\[\w+\]\.duration',
      'on wrap-around seg_start_tc restarts at origin_time, which advances by ref_duration_tc > 0 '
      '(asserted two lines above the loop); stored durations are >= 0'),
-    ('Mp4Atom.load', 'cursor += atom.size',
+    ('Mp4Atom.load', r'atom\.size',
      'atom.size is hdr["size"] (Box.parse returns initial_data); see the guard on hdr["size"]'),
 ]
+
+
+def _step_base(loop: ast.While, e: ast.AST, depth: int = 4) -> str:
+    """text of the step with names copied once per iteration replaced by their source (conditional
+    `+=` corrections of the copy are part of the confirmed invariant, not of the base)"""
+    from ..normalise import clone
+    plain: dict[str, list[ast.AST]] = {}
+    for n in ast.walk(loop):
+        if isinstance(n, ast.Assign) and len(n.targets) == 1 and isinstance(n.targets[0], ast.Name):
+            plain.setdefault(n.targets[0].id, []).append(n.value)
+        elif isinstance(n, ast.AnnAssign) and isinstance(n.target, ast.Name) and n.value is not None:
+            plain.setdefault(n.target.id, []).append(n.value)
+
+    class T(ast.NodeTransformer):
+        def __init__(self, d): self.d = d
+
+        def visit_Name(self, node):
+            vs = plain.get(node.id, [])
+            if isinstance(node.ctx, ast.Load) and len(vs) == 1 and self.d > 0 and \
+                    not any(isinstance(x, ast.Call) for x in ast.walk(vs[0])):
+                return T(self.d - 1).visit(clone(vs[0]))
+            return node
+    return norm(T(depth).visit(clone(e)))
 
 
 def _positive(step: ast.AST, loop: ast.While, fn: ast.FunctionDef) -> tuple[bool, str]:
@@ -400,7 +424,8 @@ def r16_4(rep: Report, idx: Index, cg: CallGraph) -> None:
                 if ok:
                     rep.ok(rid, f.construct(), key, why)
                     continue
-                row = next((r for r in SAFE_STEPS if q.endswith(r[0]) and r[1] == norm(s)), None)
+                resolved = norm(subst_locals(f.node, ast.parse(_step_base(loop, s.value), mode='eval').body))
+                row = next((r for r in SAFE_STEPS if q.endswith(r[0]) and re.fullmatch(r[1], resolved)), None)
                 if row and row[0] == 'Mp4Atom.load':
                     # conditional on the guard for hdr['size'] in the same loop
                     g_ok, _ = _positive(ast.parse("hdr['size']", mode='eval').body, loop, f.node)
